@@ -28,8 +28,18 @@
     value — speak about the family AS DEFINED BEFORE the run, and a log entry
     never changes after it was recorded.  No no-aliasing assumption is
     needed; [wf_family] only says that the windows point into existing
-    arrays. *)
-From CSS Require Import Lib.Base Model.Interp Proofs.Interp Model.InterpHeap Proofs.InterpHeap.
+    arrays.
+
+    Sessions (Model/InterpSession.v): a BootProcess is an object that may be
+    driven by SEVERAL calls — single NextStep calls, Finish, Finish again,
+    NextStep after the end, State.SetFlow(next flow) and on — with the Log
+    that is already there.  C09_finish_from_anywhere, C09_stepwise_then_finish,
+    C09_rerun_after_set_flow, C09_session_never_aborts, C09_session_keeps_log
+    and C09_session_runs say that whoever asks for the next step, the same
+    steps are executed, every one leaves its entry behind the entries that
+    are there, and none of those is ever taken back or changed. *)
+From CSS Require Import Lib.Base Model.Interp Proofs.Interp Model.InterpHeap Proofs.InterpHeap
+  Model.InterpSession Proofs.InterpSession.
 
 (** Acyclic (stratified) families: [Finish] — any number of NextStep calls from
     [fuel_bound fam] = 1 + total number of steps on — terminates and leaves
@@ -438,3 +448,92 @@ Proof.
   split; [vm_compute; repeat split|].
   vm_compute. split; reflexivity.
 Qed.
+
+(** * Several calls on one BootProcess (Model/InterpSession.v) *)
+
+(** NextStep calls / Finish on a process that is ANYWHERE in a flow and whose
+    Log already holds ANY entries: the entries that were there stay, in front,
+    and behind them come exactly the entries of the steps that were still to
+    be executed ([remaining]: the rest of the current flow), run by the
+    specification from the current state. *)
+Theorem C09_finish_from_anywhere : forall fam fuel st log,
+  sized fam -> uint_ok st ->
+  exists st',
+    run fuel fam st log =
+      Ok (st', log ++ fst (fst (spec_run fuel fam (remaining fam st) (ms_core st))),
+          snd (spec_run fuel fam (remaining fam st) (ms_core st))) /\
+    ms_core st' = snd (fst (spec_run fuel fam (remaining fam st) (ms_core st))).
+Proof. intros fam fuel st log H. exact (run_spec fam H fuel st log). Qed.
+Print Assumptions C09_finish_from_anywhere.
+
+(** Driving the first [k] steps one by one and the rest with a further run
+    ([m] more calls; Finish is the limit) is the same as one run: same state,
+    same log — the entries of the single-stepped part included; and a run
+    that has reported the end stays what it is. *)
+Theorem C09_stepwise_then_finish : forall fam k m st log st1 log1,
+  (run k fam st log = Ok (st1, log1, false) -> run (k + m) fam st log = run m fam st1 log1) /\
+  (run k fam st log = Ok (st1, log1, true) -> run (k + m) fam st log = Ok (st1, log1, true)).
+Proof. intros. split; [apply run_split|apply run_ended_mono]. Qed.
+Print Assumptions C09_stepwise_then_finish.
+
+(** Running a further flow on the same process: after State.SetFlow(g) on any
+    state, Finish (any sufficient fuel) on an acyclic family keeps the log
+    that was there and appends the big-step run of [g] from its first step. *)
+Theorem C09_rerun_after_set_flow : forall fam st log g fuel,
+  sized fam -> stratified fam = true -> (fuel_bound fam <= fuel)%nat ->
+  exists st',
+    run fuel fam (set_flow g st) log = Ok (st', log ++ fst (exec_flow fam g (ms_core st)), true) /\
+    ms_core st' = snd (exec_flow fam g (ms_core st)).
+Proof. exact rerun_refines_spec. Qed.
+Print Assumptions C09_rerun_after_set_flow.
+
+(** Any session — any sequence of NextStep calls (also after the end of the
+    flow was reported), Finish and SetFlow, from any state with any log —
+    returns normally and only appends to the log. *)
+Theorem C09_session_never_aborts : forall fuel fam ops st log tr,
+  sized fam -> uint_ok st ->
+  exists st' new tr', session fuel fam ops st log tr = Ok (st', log ++ new, tr') /\ uint_ok st'.
+Proof. intros fuel fam ops st log tr H. exact (session_total fuel fam H ops st log tr). Qed.
+Print Assumptions C09_session_never_aborts.
+
+(** The same at slice level, on any memory layout: whatever the session, the
+    recorded entries stay in front and read the same through the final heap
+    as before the session, no array of the definition is written, the family
+    reads the same, and state, log and trace are those of the value-level
+    session on the family as defined. *)
+Theorem C09_session_keeps_log : forall grow fuel fam ops st h log tr st' h' log' tr',
+  wf_family (length h) fam = true -> wf_log h log ->
+  session_h grow fuel fam ops st h log tr = Ok (st', h', log', tr') ->
+  (exists new, log' = log ++ new) /\ map (read_entry h') log = map (read_entry h) log /\
+  firstn (length h) h' = h /\ resolve_family h' fam = resolve_family h fam /\
+  session fuel (resolve_family h fam) ops st (map (read_entry h) log) tr = Ok (st', map (read_entry h') log', tr').
+Proof. exact session_keeps_log. Qed.
+Print Assumptions C09_session_keeps_log.
+
+(** ... and from a fresh process every session on every layout returns
+    normally. *)
+Theorem C09_session_runs : forall grow fuel fam ops h root c,
+  wf_family (length h) fam = true -> sized (resolve_family h fam) ->
+  exists st h' log tr,
+    session_h grow fuel fam ops (init_state root c) h [] [] = Ok (st, h', log, tr) /\
+    firstn (length h) h' = h /\ resolve_family h' fam = resolve_family h fam /\
+    session fuel (resolve_family h fam) ops (init_state root c) [] [] = Ok (st, map (read_entry h') log, tr).
+Proof. exact session_runs. Qed.
+Print Assumptions C09_session_runs.
+
+(** The hypotheses are satisfiable, and the calls can be mixed: on [demo]
+    (flow 0 switches into flow 1 in its second step) two single steps, then
+    Finish, then flow 1 once more on the same process: the log is the run of
+    flow 0 followed by the run of flow 1 from the state the first run left —
+    6 entries, the first four being what Finish alone records. *)
+Example C09_demo_session :
+  let c0 := mkCore None [] (Some true) in
+  match session (fuel_bound demo) demo [ONext 2; OFinish; OFinish; ONext 2; OSetFlow 1; OFinish] (init_state 0 c0) [] [] with
+  | Ok (st, log, tr) =>
+      tr = [(2, false); (4, true); (4, true); (4, true); (4, false); (6, true)]%nat /\
+      firstn 4 log = fst (exec_flow demo 0 c0) /\
+      skipn 4 log = fst (exec_flow demo 1 (snd (exec_flow demo 0 c0))) /\
+      map e_sid log = [10; 11; 13; 14; 13; 14]
+  | _ => False
+  end.
+Proof. vm_compute. repeat split. Qed.
